@@ -318,6 +318,12 @@ func CallOf(v ssa.Value) (*ssa.Call, int) {
 		if c, ok := x.Tuple.(*ssa.Call); ok {
 			return c, x.Index
 		}
+	case *ssa.UnOp:
+		// a variable that lives in memory (captured by a closure, address taken): the value stored
+		// into it earlier in the same block (`err = f(); if err != nil`)
+		if sv := SpilledValue(x); sv != nil {
+			return CallOf(sv)
+		}
 	}
 	return nil, -1
 }
